@@ -154,6 +154,7 @@ let err_name = function
   | ErrBatchStatement (i, e) -> Printf.sprintf "batch-stmt %s %s" (hex_of_n i) (stmt_err_name e)
   | ErrBadBatch (a, b) -> Printf.sprintf "bad-batch %s %s" (hex_of_n a) (hex_of_n b)
   | ErrStartup -> "startup" | ErrRegister -> "register" | ErrAuthResponse -> "auth" | ErrSnap -> "snap"
+  | ErrBodyTooLong n -> "body-too-long " ^ hex_of_n n
 
 let rec drop k l = if k <= 0 then l else match l with [] -> [] | _ :: r -> drop (k - 1) r
 
@@ -168,22 +169,25 @@ let first_diff (a : string) (b : string) : string =
 let no_codec = { lz4_compress = (fun b -> b); lz4_decompress = (fun _ _ -> None);
                  snap_compress = (fun _ -> None); snap_decompress = (fun _ -> None) }
 
-(* L cases: only the sizes are observed.  The model's sizes come from batch_body_len /
-   header_len_field (C09_len32_batch ties them to encode_request); the property is
-   "length field = body size"; its failures on bodies >= 4 GiB are the known class. *)
+(* L cases: only the sizes are observed.  The model's outcome is uniform_batch_outcome
+   (C09_uniform_batch ties it to encode_request): Ok size = a frame whose length field is the
+   size, Err size = BodyTooLong(size).  The property on the implementation's own output is
+   "length field = body size" (a body that does not fit must be refused, not truncated). *)
 let verdict_len n t impl =
+  let model = uniform_batch_outcome (n_of_hex n) (n_of_hex t) in
+  let ms = match model with Ok b -> "len " ^ hex_of_n b ^ " " ^ hex_of_n b
+                          | Err b -> "err body-too-long " ^ hex_of_n b in
   match impl with
   | ["skipped"] -> "ok skipped-not-enough-memory"
   | ["len"; b; f] ->
     let b = n_of_hex b and f = n_of_hex f in
-    let mb = batch_body_len (n_of_hex n) (n_of_hex t) in
-    let mf = header_len_field mb in
-    if f = b then (if b = mb && f = mf then "ok" else "diff model-body=" ^ hex_of_n mb ^ " model-field=" ^ hex_of_n mf)
-    else
-      "viol " ^ (if len32_class b then "class=frame-len32-wrap " else "")
-      ^ Printf.sprintf "length-field=%s body-size=%s model-field=%s model-body=%s" (hex_of_n f) (hex_of_n b)
-        (hex_of_n mf) (hex_of_n mb)
-  | "err" :: _ -> "diff model=ok impl-refused"
+    if f <> b then
+      Printf.sprintf "viol length-field=%s differs-from-body-size=%s (truncated, not refused) model=%s"
+        (hex_of_n f) (hex_of_n b) ms
+    else if model = Ok b then "ok" else "diff model=" ^ ms
+  | ["err"; "body-too-long"; b] ->
+    if model = Err (n_of_hex b) then "ok" else "diff model=" ^ ms
+  | "err" :: _ -> "diff model=" ^ ms
   | ["panic"] -> "diff impl-panic"
   | _ -> "error bad-impl-output"
 
